@@ -75,9 +75,10 @@ Definition cmd_calls (v : val) : val :=
 Definition cmd_shape (v : val) : val :=
   vlist (fun c => vlist vbool (shape_clauses (dec_params (vnth c 0)) (dec_instance (vnth c 1)))) (asL v).
 
-(** 4: [names; list of params] -> [names pairwise distinct; wf_paramsb of each]. *)
+(** 4: [list of name lists; list of params] -> [each name list pairwise
+    distinct; wf_paramsb of each record]. *)
 Definition cmd_names (v : val) : val :=
-  VL [vbool (nodup_nameb (asLof (asLof asZ) (vnth v 0)));
+  VL [vlist (fun ns => vbool (nodup_nameb (asLof (asLof asZ) ns))) (asL (vnth v 0));
       vlist (fun c => vbool (wf_paramsb (dec_params c))) (asL (vnth v 1))].
 
 (** 5: list of [params; instance] -> the stream that spells the instance out. *)
